@@ -9,7 +9,7 @@ PID = "C08"
 RULE = ("for value x=n/d and spec (digit limit, exponent threshold) the text T printed by Rational::display must parse as "
         "-? digits ('.' digits)? '…'? ('e' -? digits)?; with v the decimal value of T and u one unit in its last printed digit: "
         "|v| <= |x| < |v|+u, sign correct, mark present iff |x| != |v|. Judged in-process on BigInt for every pair and re-judged "
-        "by an independent Python oracle (Fraction) on a stratified sample. Workload: (n,d) grid, random m*10^k (k in -40..40), "
+        "by an independent Python oracle (Fraction) on a stratified sample. Workload: (n,d) grid, random m*10^k (k in -40..40), short mantissas times 10^e for e up to +-700 (every thirteenth exponent swept), terminating denominators of up to 1200 bits, "
         "terminating and repeating denominators, budget-boundary values (all nines, trailing zeros, integer part filling the budget) "
         "x limits 1..20 x thresholds 1..15, plus the CLI spec (12,12). non-trivial = distinct (value,spec) pair where digits were "
         "actually cut off or the exponent form was used (counted by the in-process monitor)")
@@ -37,7 +37,21 @@ def boundary_values(rng, count):
     vals = []
     for _ in range(count):
         k = rng.randint(1, 22)
-        kind = rng.randint(0, 8)
+        kind = rng.randint(0, 10)
+        if kind >= 9:
+            # extreme magnitudes with a SHORT mantissa (8e-181, 4.25e-170, 3e+500) and terminating denominators of hundreds of bits:
+            # digit generators that change method with the width of the denominator (seed C08-h: repeated subtraction beyond 512 bits,
+            # off by one exactly when the expansion terminates inside the budget)
+            m = rng.choice([1, 8, 425, rng.randint(1, 999), rng.randint(1, 10 ** rng.randint(1, 14))])
+            if kind == 9:
+                e = rng.choice([-1, 1]) * rng.randint(41, 700)
+                n, d = (m * 10 ** e, 1) if e >= 0 else (m, 10 ** -e)
+            else:
+                n, d = m, 2 ** rng.randint(100, 1200) if rng.random() < 0.5 else 5 ** rng.randint(50, 500)
+            if rng.random() < 0.4:
+                n = -n
+            vals.append([str(n), str(d)])
+            continue
         if kind >= 7:
             # sparse digit strings: a few non-zero digits far apart in a long run of zeros (10^39 + 7, 4*10^24 + 1, 1e-12 + 1e-24):
             # whatever decides the mark or the exponent from only PART of the cut-off digits goes wrong here (seeds C08-d, C08-e)
@@ -72,6 +86,11 @@ def boundary_values(rng, count):
         if rng.random() < 0.4:
             n = -n
         vals.append([str(n), str(d)])
+    # ... and a sweep over the exponent itself: 1, 8 and 4.25 times 10^e for every thirteenth e in -700..700 (offset by the run)
+    off = rng.randrange(13)
+    for e in range(-700 + off, 701, 13):
+        for m in (1, 425):
+            vals.append([str(m * 10 ** e), "1"] if e >= 0 else [str(m), str(10 ** -e)])
     vals += [["0", "1"], ["1", "1"], ["-1", "1"], ["1", "8"], ["100000000", "1"], ["12345675", "10"]]
     return vals
 
